@@ -77,6 +77,8 @@ def main():
     for b in bad:
         c = byid[b["case"]]
         b["detail"] = f"program={c['prog']} allocs={ {k: observed.get((c['case'], k)) for k in ('direct', 'trait')} }"
+    for cid, why in c01.CRASHED.items():
+        bad.append({"case": cid, "conjunct": "runs-to-completion", "cls": "", "detail": f"program={byid[cid]['prog']} {why}"})
     for cid in dropped:
         bad.append({"case": cid, "conjunct": "compiles", "cls": "", "detail": f"program={byid[cid]['prog']} diag={[d['message'][:140] for d in dropped[cid]][:2]}"})
 
